@@ -24,18 +24,43 @@
        sequential run, leaves the shared memory unchanged and contains no two conflicting accesses.
    (3) Model/ReadOnly.v - which exported helpers with an item parameter (Gen/Helpers.v, regenerated from the
        source) count as read-only; every helper is classified.
+   (4) Model/WriteEff.v over Gen/WriteEffects.v - a static WRITE-EFFECT TABLE of the whole package (every function,
+       method, function literal: its write statements with the roots of the memory they may write - local /
+       parameter / package-level / unknown - and its calls with the roots of every argument), regenerated from the
+       SSA form of the source on every run, and a decidable condition over it: from the read-only parameters of
+       every read-only entry point (encoders of both codecs of every type, Equals / ItemsEqual / Contains, Format /
+       String, IsNil / NotEmpty / type predicates / getters / DerefItem, the On.. / To.. helpers themselves, the
+       exported JSONWrite.. functions except for their output buffer) the argument bindings are followed through
+       the call graph to any depth; no memory so reached is written, no reachable function writes a package-level
+       variable or unknown memory, makes an unresolved dynamic call, starts a goroutine or calls a function of
+       another package outside an explicit allow-list (no sync.Pool); the decoding entry points satisfy the
+       function-level part.  The condition is proved SOUND for every table (C12_write_effects_sound: induction on
+       call chains of any depth), EXACT (the sets it is evaluated on are the reachable ones), and evaluated on the
+       generated table by vm_compute.  This covers the operations that (1) does not: the per-type MarshalJSON /
+       GobEncode bodies, gobEncodeItem / gobEncodeItems / ..., ItemsEqual and every Equals, IsNil / NotEmpty,
+       On.. / To.., DerefItem, the formatting methods.
 
    What is NOT proved (the partiality; exercised by the harness at run time and named as such in the evidence):
-   - the read-only operations outside (1) - the per-type MarshalJSON/GobEncode bodies, encoding/gob, fmt,
-     reflect, ItemsEqual/Equals, IsNil/NotEmpty, On*/To* - have no store-level model; for them the
-     statement "no write into the argument" is checked natively (deep snapshot to capacity before/after);
+   - the read-only operations outside (1) have no store-level model.  For them (4) proves a statement about the
+     TABLE: no call chain of the table leads from a read-only argument to a write.  That the table describes the
+     code is trusted, not proved: the translator's classification of every SSA instruction (translator/
+     writeeffects.go: a flow- and field-insensitive points-to analysis with two levels per parameter, function
+     summaries by fixpoint), the soundness of "local" (memory allocated in the call is not reachable from anywhere
+     else unless the analysis saw it stored), the list of what functions of other packages do with their
+     arguments (extSpecs / ext_allowed_ro: write masks, "keeps no reference", "result is fresh"), that interface
+     values hold types of this package, that reflection, encoding/gob, encoding/json and fmt call back into the
+     package only through the methods that are themselves entry points, and that unsafe.Pointer conversions keep
+     the root (C08 is about their layout).  A call through a function parameter of an On.. helper is not followed
+     (the property excludes the callback).  The native part (snapshot to capacity before/after, goroutines,
+     -race) stays as the check that the code agrees with this on executed inputs;
    - the step from (1) to the hypothesis of (2) (an operation run by a goroutine reads only its arguments and
      its own memory; memory allocated by one goroutine is private to it) is an assumption about the Go
      runtime and memory model, not a theorem; data races in compiled Go are observed with `go build -race`;
    - runs of the model that end in a Panic (JSONWriteProp on an empty buffer with an empty name, the pinned
      escapeQuote's index drift) carry no footprint statement: the state at the panic is not part of the outcome. *)
-From AP.Model Require Import Prelude Effects Interleave ReadOnly.
-From AP.Proofs Require Import EffectsP InterleaveP ReadOnlyP.
+From AP.Model Require Import Prelude Effects Interleave ReadOnly WriteEff WriteEffInst.
+From AP.Gen Require Import WriteEffects.
+From AP.Proofs Require Import EffectsP InterleaveP ReadOnlyP WriteEffP.
 
 (* ---- (1) write footprints and frames *)
 
@@ -137,6 +162,141 @@ Proof. exact schedules_agree. Qed.
 
 Theorem C12_ops_classified : classified_all = true /\ read_only_ops_in_tables = true.
 Proof. exact ops_classified. Qed.
+
+(* ---- (4) the static write-effect table (Gen/WriteEffects.v, regenerated from the source on every run) *)
+
+(* diagnosis first: when the source moved, this is the obligation that fails, and Coq's error message names the
+   function, the root, the source line and what writes
+   ("Unable to unify None with Some (OffParamWrite "gobEncodeItems" (RP 0 0) "encoding_gob.go" 64 "write statement")",
+    "... Some (OffCall "NaturalLanguageValues.MarshalJSON" "natural_language_values.go" 388 "*sync.Pool.Get")") *)
+Theorem C12_write_effects_first_bad : we_first_bad_ro = None.
+Proof. exact we_first_bad_ro_none. Qed.
+
+Theorem C12_write_effects_decoders_first_bad : we_first_bad_dec = None.
+Proof. exact we_first_bad_dec_none. Qed.
+
+(* SOUNDNESS of the decidable condition, for every table, every policy, every set of entry points: if check
+   answers true then (a) no function that a call chain of ANY depth reaches from an entry point - through static
+   calls, every implementation of an interface method, the initial value of a package-level function variable, the
+   function literals it makes - writes a package-level variable or unknown memory, has an unrecognised instruction,
+   makes an unresolved dynamic call, starts a goroutine, or calls a function of another package that is not on the
+   allow-list; (b) no node (f, r) that the argument bindings of such chains reach from a start node - r being the
+   memory parameter i of f points to, or reaches - is written by a statement of f or through a function of another
+   package called by f. *)
+Theorem C12_write_effects_sound : forall (T : list fn) (Ext Glob : list bytes) (pol : policy) (fuel : nat)
+    (E : list N) (S : list node),
+  check T Ext Glob pol fuel E S = true ->
+  (forall f, freach T E f -> fn_bad T Ext Glob pol f = false) /\
+  (forall n, nreach T E S n -> node_bad T n = false).
+Proof. exact check_sound. Qed.
+
+(* ... and the sets the condition is evaluated on are exactly the reachable ones (the search is not trusted: its
+   result is checked for closedness; conversely everything it returns is reachable) *)
+Theorem C12_write_effects_exact : forall (T : list fn) (Ext Glob : list bytes) (pol : policy) (fuel : nat)
+    (E : list N) (S : list node),
+  check T Ext Glob pol fuel E S = true ->
+  (forall f, freach T E f <-> In f (reach_f T fuel E)) /\
+  (forall n, nreach T E S n <-> In n (reach_n T fuel E S)).
+Proof. exact check_exact. Qed.
+
+(* what "not an offender" means, statement by statement *)
+Theorem C12_node_not_written : forall (T : list fn) (n : node), node_bad T n = false ->
+  (forall w, In w (writes_of T (fst n)) -> mem_root (snd n) (w_roots w) = false) /\
+  (forall c e mask smask, In c (calls_of T (fst n)) -> c_callee c = CExt e mask smask ->
+                    mem_root (snd n) (masked_roots mask smask (c_args c)) = false).
+Proof. exact node_bad_false. Qed.
+
+Theorem C12_function_no_shared_state : forall (T : list fn) (Ext Glob : list bytes) (pol : policy) (f : N),
+  fn_bad T Ext Glob pol f = false ->
+  (forall w, In w (writes_of T f) -> existsb outside (w_roots w) = false /\ (forall s, w_kind w <> WUnrec s)) /\
+  (forall c, In c (calls_of T f) -> call_bad Ext Glob pol c = false).
+Proof. exact fn_bad_false. Qed.
+
+(* the condition on the table of this run: the read-only entry points ... *)
+Theorem C12_read_only_ops_write_nothing :
+  check we_table we_externals we_globals pol_ro we_fuel we_entries we_starts = true.
+Proof. exact we_ro_holds. Qed.
+
+Theorem C12_read_only_ops_write_nothing_chains :
+  (forall f, freach we_table we_entries f -> fn_bad we_table we_externals we_globals pol_ro f = false) /\
+  (forall n, nreach we_table we_entries we_starts n -> node_bad we_table n = false).
+Proof. exact we_ro_sound. Qed.
+
+(* ... and the decoding entry points (UnmarshalJSON / UnmarshalText / UnmarshalBinary / GobDecode of every type, the
+   package-level UnmarshalJSON / GobDecode, JSONLoad.. / JSONGet..): no package-level state, no unknown memory,
+   allow-listed calls only, nothing they pass on from a package-level variable is written - "decode independent
+   inputs concurrently" *)
+Theorem C12_decoders_share_no_state :
+  check we_table we_externals we_globals pol_dec we_fuel we_dec_entries [] = true.
+Proof. exact we_dec_holds. Qed.
+
+(* the entry points are found by name in the generated table; every operation that Model/ReadOnly.v counts as
+   read-only is among them, and the package-level function variables that the chains follow by their initial value
+   (ItemTyperFunc, JSONItemUnmarshal, IsNotEmpty) are assigned by no function of the package *)
+Theorem C12_entry_points_cover_read_only_ops :
+  read_only_ops_are_entries = true /\ hooks_never_written we_table we_globals = true.
+Proof. exact (conj we_entries_cover we_hooks). Qed.
+
+(* the functions modelled at store level (Model/Effects.v) and the table agree: each buffer operation writes
+   nothing but local memory and its output buffer (parameter 0) and hands that buffer on only as the buffer of
+   another modelled buffer operation, each value operation writes local memory only - what
+   C12_footprint_buffer_partial / C12_footprint_partial prove of the model (writes are fresh or inside the output
+   region) is what the translator reads off the code; the tags of the list are the constructors of Effects.bufop /
+   Effects.valop, in both directions.  (Every OTHER reachable function that has a class (b) entry writes through a
+   parameter that no chain binds to read-only memory - that is C12_read_only_ops_write_nothing_chains; on this tree
+   they are the helpers with an output parameter - the gob property map, a bytes.Buffer, a gob encoder, fmt.State -
+   and the function literals that assign to a variable of the function that made them.) *)
+Theorem C12_store_modelled_tied :
+  store_modelled_ok we_table we_externals = true /\
+  (forall o : bufop, name_in (bufop_tag o) buf_tags = true) /\
+  (forall o : valop, valop_tag o = B "VEscapeQuotePinned" \/ name_in (valop_tag o) val_tags = true) /\
+  forallb (fun t => name_in t all_buf_tags) buf_tags = true /\ forallb (fun t => name_in t all_val_tags) val_tags = true.
+Proof. exact (conj we_store_modelled (conj store_tags_buf (conj store_tags_val store_tags_are_ops))). Qed.
+
+(* the translator's classification is trusted, not proved; it is EXHIBITED on every run: a fixture of 48 small
+   functions, one per shape of write (translator/wefixture.go: assignment through a pointer parameter, x.F on a
+   pointer receiver, s[i] on a slice that came in - also inside a value receiver -, s = s[:0] + append,
+   append(s[:i], s[i+1:]...), map writes and deletes, copy, one and two levels down, through an alias, through a
+   struct copy, from a function literal, a package-level variable written / indexed / pointed to / handed on, an
+   integer turned into a pointer; and the harmless counterparts: locals, make, append to a nil slice, a value
+   receiver's own copy, a pointer receiver that is only read, a bytes.Buffer of its own, sorting a copy, a literal
+   run by a helper on the helper's local variable) is analysed by the same code and must come out with exactly the
+   roots written down in Model/WriteEffInst.v, and the condition must accept / refuse each function taken as an
+   entry point as listed there *)
+Theorem C12_translator_fixture : fixture_ok = true.
+Proof. exact we_fixture. Qed.
+
+(* the condition distinguishes.  A helper that filters the list it was handed in place (items := col[:0]; append -
+   the shape of the seeded change C12-4) is reached from the encoder's receiver and refused; the same helper
+   appending to a fresh list passes; a scratch buffer from a package-level sync.Pool (C12-5) is refused *)
+Theorem C12_write_effects_filter_in_place_refuted :
+  ex_check T_filter = false /\
+  ex_first_bad T_filter = Some (OffParamWrite "helper" (RP 0%N 0%N) "x.go" 7%N "write statement") /\
+  nreach T_filter (entries T_filter ex_spec) (starts T_filter ex_spec) (1%N, RP 0%N 0%N) /\
+  node_bad T_filter (1%N, RP 0%N 0%N) = true.
+Proof. exact ex_filter_refuted. Qed.
+
+Example C12_write_effects_copy_accepted : ex_check T_copy = true.
+Proof. exact ex_copy_holds. Qed.
+
+Theorem C12_write_effects_pool_refuted :
+  ex_check T_pool = false /\ ex_first_bad T_pool = Some (OffCall "L.M" "x.go" 3%N "*sync.Pool.Get").
+Proof. exact ex_pool_refuted. Qed.
+
+(* non-vacuity on the generated table: the entry points are there, and the read-only receiver of an encoder really
+   reaches the list helpers (the parameter of gobEncodeItems, the list parameter of JSONWriteItemCollectionValue) *)
+Example C12_write_effects_entries_nontrivial :
+  name_in (B "Object.MarshalJSON") we_entry_names = true /\ name_in (B "Object.GobEncode") we_entry_names = true /\
+  name_in (B "ItemsEqual") we_entry_names = true /\ name_in (B "OnObject") we_entry_names = true /\
+  name_in (B "Activity.Format") we_entry_names = true /\ name_in (B "JSONWriteItemCollectionValue") we_entry_names = true /\
+  (300 <=? N.of_nat (length we_entries))%N = true.
+Proof. exact we_entries_nontrivial. Qed.
+
+Example C12_write_effects_reach_nontrivial :
+  nreach we_table we_entries we_starts (we_index (B "gobEncodeItems"), RP 0%N 0%N) /\
+  nreach we_table we_entries we_starts (we_index (B "JSONWriteItemCollectionValue"), RP 1%N 0%N) /\
+  freach we_table we_entries (we_index (B "stringBytes")).
+Proof. exact we_reaches_list_helpers. Qed.
 
 (* ---- non-vacuity *)
 
